@@ -113,6 +113,7 @@ REGISTRY = {
             {"name": "TestC09LateAccept", "shards": 2, "shards_thorough": 8, "crash_is_violation": True},
             {"name": "TestC10Lifecycle", "shards": 8, "shards_thorough": 8, "crash_is_violation": True},
             {"name": "TestC10StuckPeer", "shards": 4, "shards_thorough": 16, "crash_is_violation": True},
+            {"name": "TestC10Secs1Fresh", "shards": 4, "shards_thorough": 16, "crash_is_violation": True},
         ],
         "require": {"c10:reopened": 45, "c10b:selected": 59, "c10b:wt:5s": 43},
     },
